@@ -13,6 +13,7 @@ import pickle
 import random
 import re
 import shutil
+import tempfile
 import xml.etree.ElementTree as ET
 
 from vlib import impl
@@ -182,7 +183,8 @@ def g_file(f):
 
 
 def g_loc(l):
-    return "LSub" if l else "LIn"
+    """0: inside the collection; 1: collection-cache below filesystem_folder; 2: below filesystem_cache_folder"""
+    return "(LSub %d)" % l if l else "LIn"
 
 
 def g_key(k):
@@ -312,10 +314,12 @@ class Run:
         self.interfere = None      # dict(c=, h=, advs=[...]) applied inside the cache lock of a read request
         self.req_gets = {}         # per request: (collpath, href) -> derived tuple | None   (last _get)
         self.cfg = dict(cfg)
-        self.srv = impl.Server(self.conf_of(self.cfg))
+        self.folder = tempfile.mkdtemp(prefix="rv-c13-")
+        self.srv = impl.Server(self.conf_of(self.cfg), folder=self.folder)
         rstorage.CACHE_VERSION = VERS[self.cfg["ver"]]
-        self.root = os.path.join(self.srv.folder, "collection-root")
-        self.croot = os.path.join(self.srv.folder, "collection-cache")
+        self.root = os.path.join(self.folder, "collection-root")
+        self.croots = {0: self.root, 1: os.path.join(self.folder, "collection-cache"),
+                       2: os.path.join(self.folder, "altcache", "collection-cache")}
         self.emit(("cfg", dict(self.cfg)), [])
         self.unmodelled = []
 
@@ -323,11 +327,12 @@ class Run:
         CUR[0] = None
         rstorage.CACHE_VERSION = REAL_VERSION
         self.srv.close()
+        shutil.rmtree(self.folder, ignore_errors=True)
 
-    @staticmethod
-    def conf_of(cfg):
+    def conf_of(self, cfg):
         return {"storage": {"use_mtime_and_size_for_item_cache": str(bool(cfg["stat"])),
                             "use_cache_subfolder_for_item": str(bool(cfg["sub"])),
+                            "filesystem_cache_folder": os.path.join(self.folder, "altcache") if cfg["sub"] == 2 else "",
                             "skip_broken_item": str(bool(cfg["skip"]))},
                 "auth": {"type": "none"}, "rights": {"type": "authenticated"}}
 
@@ -389,7 +394,7 @@ class Run:
             m = re.fullmatch(re.escape(ver.decode()) + r"size=(\d+);mtime=(\d+)", key or "")
             if m:
                 return [2, v, int(m.group(1)), int(m.group(2))]
-        return [9, 0, 0]
+        return [2, 99, 0, 0]           # unknown key format: never equal to a model key
 
     def prim(self, p):
         rec = self.cur_get or self.cur_upload
@@ -511,12 +516,12 @@ class Run:
 
     # ---------------------------------------------------------------- the cache on disk
     def entry_path(self, sub, collpath, name):
-        return os.path.join(self.croot if sub else self.root, collpath, ".Radicale.cache", "item", name)
+        return os.path.join(self.croots[sub], collpath, ".Radicale.cache", "item", name)
 
     def entries(self):
         """[(sub, collpath, name, path)] of all entry files at final locations."""
         out = []
-        for sub, base in ((0, self.root), (1, self.croot)):
+        for sub, base in sorted(self.croots.items()):
             for root, dirs, files in os.walk(base):
                 if ".Radicale.tmp-" in root:
                     continue
@@ -565,7 +570,7 @@ class Run:
             with contextlib.suppress(FileNotFoundError):
                 os.remove(self.entry_path(a[1], rc[a[2]], rh[a[3]]))
         elif k == "dropcoll":
-            base = os.path.join(self.croot if a[1] else self.root, rc[a[2]], ".Radicale.cache")
+            base = os.path.join(self.croots[a[1]], rc[a[2]], ".Radicale.cache")
             if a[3:] and a[3] == "item":
                 shutil.rmtree(os.path.join(base, "item"), ignore_errors=True)
             else:
@@ -576,9 +581,10 @@ class Run:
                     if dn == ".Radicale.cache":
                         shutil.rmtree(os.path.join(root, dn), ignore_errors=True)
                         dirs.remove(dn)
-            if os.path.isdir(self.croot):
-                for n in os.listdir(self.croot):
-                    shutil.rmtree(os.path.join(self.croot, n), ignore_errors=True)
+            for sub in (1, 2):
+                if os.path.isdir(self.croots[sub]):
+                    for n in os.listdir(self.croots[sub]):
+                        shutil.rmtree(os.path.join(self.croots[sub], n), ignore_errors=True)
         elif k == "plant":
             p = self.entry_path(a[1], rc[a[2]], rh[a[3]])
             os.makedirs(os.path.dirname(p), exist_ok=True)
@@ -949,13 +955,13 @@ def manipulate(run, rng, pool, counts, nxt=None):
             counts["manip:drop-entry"] += 1
         elif x < 0.30:
             cp = rng.choice(list(COLLS))
-            run.adv(("dropcoll", rng.randrange(2), run.d.coll(cp), rng.choice(["item", "all"])))
+            run.adv(("dropcoll", rng.randrange(3), run.d.coll(cp), rng.choice(["item", "all"])))
             counts["manip:drop-collection-cache"] += 1
         elif x < 0.37:
             run.adv(("dropall",))
             counts["manip:drop-all"] += 1
         elif x < 0.67:
-            sub = run.cfg["sub"] if rng.random() < 0.75 else 1 - run.cfg["sub"]
+            sub = run.cfg["sub"] if rng.random() < 0.75 else rng.choice([x for x in (0, 1, 2) if x != run.cfg["sub"]])
             cands = [cp for cp in COLLS if sub or os.path.isdir(os.path.join(run.root, cp))]
             if not cands:
                 continue
@@ -979,7 +985,7 @@ def manipulate(run, rng, pool, counts, nxt=None):
             run.reconfigure(cfg)
             counts["manip:switch-key-mode"] += 1
         elif x < 0.85:
-            cfg = dict(run.cfg, sub=1 - run.cfg["sub"])
+            cfg = dict(run.cfg, sub=rng.choice([x for x in (0, 1, 2) if x != run.cfg["sub"]]))
             run.reconfigure(cfg)
             counts["manip:switch-location"] += 1
         elif x < 0.89:
@@ -1037,8 +1043,8 @@ def run_pair(seed, length, keep_acts=True):
     import collections
     rng = random.Random("c13-%d" % seed)
     hist = gen_history(rng, length)
-    base = dict(stat=rng.randrange(2), sub=rng.randrange(2), ver=0, skip=1 if rng.random() < 0.8 else 0)
-    cfg_b = dict(base, stat=rng.randrange(2), sub=rng.randrange(2))
+    base = dict(stat=rng.randrange(2), sub=rng.randrange(3), ver=0, skip=1 if rng.random() < 0.8 else 0)
+    cfg_b = dict(base, stat=rng.randrange(2), sub=rng.randrange(3))
     dic = Dict()
     counts = collections.Counter()
     out = dict(seed=seed, failures=[], cases=[], unmodelled=[], base=base, cfg_b=cfg_b)
